@@ -131,6 +131,25 @@ theorem ti_update_body_eq_model (cl : List A → List (List A)) (hnil : cl [] = 
     tiRunUpdate genTi cl al m ev = TextInputCl.update cl al m ev :=
   update_body_eq_model cl hnil al m ev
 
+open VaxisModel.Lemmas.EdLangTIBody VaxisModel.Lemmas.TextInputCl in
+open VaxisModel.Spec.Editor (runC) in
+/-- End to end for textinput, for EVERY segmentation meeting the three laws and every history of `Update`
+    events (keys, paste brackets, releases), `SetContent` and `Draw` calls from any starting content: the
+    widget with `Update` / `SetContent` as translated from the source and interpreted (its `Draw` as modelled) never
+    panics or hangs, holds the ideal editor's text with the cursor at the ideal index within the text, and its
+    content stays the segmentation of its text. -/
+theorem textinput_source_refines (cl : List A → List (List A)) (hs : VaxisModel.Spec.Editor.Segmentation cl)
+    (isAlnum : List A → Bool) (width : List A → Int) (start : List A) (ops : List (TIOpC A)) :
+    ∃ m0 mf sops, tiStepI isAlnum cl width TextInputCl.new (.set start) = some m0 ∧
+      tiRunI isAlnum cl width m0 ops = some (mf, sops) ∧
+      tiAbsC mf = runC cl isAlnum ⟨cl start, (cl start).length⟩ sops ∧
+      0 ≤ mf.cursor ∧ mf.cursor ≤ mf.content.length ∧ mf.content = cl mf.content.flatten := by
+  have hnil := VaxisModel.Lemmas.EditorCl.cl_nil hs
+  obtain ⟨mf, sops, hr, h⟩ := VaxisModel.Props.C17.textinput_refines_clustered cl hs isAlnum width start ops
+  refine ⟨TextInputCl.setContent cl TextInputCl.new start, mf, sops, ?_, ?_, h⟩
+  · rw [tiStepI_eq isAlnum cl hnil]; rfl
+  · rw [tiRunI_eq isAlnum cl hnil]; exact hr
+
 /-- Non-vacuity / a computed instance: Ctrl+w behind "ab cd" through the translated body. -/
 example : tiRunUpdate genTi (VaxisModel.Lemmas.EditorCl.singletons (A := Nat)) (fun c => c != [0])
     ⟨[[1], [2], [0], [3], [4]], 5, 0, []⟩ (.key "Ctrl+w" false false false []) = some ⟨[[1], [2], [0]], 3, 0, []⟩ := by
